@@ -268,12 +268,21 @@ func (p *tcpProc) OnSvcConfigUpdate(c *service.Config) error {
 	// update if strategy changes.
 	if newHC := c.GetHealthCheck(); !p.cfg.GetHealthCheck().Equal(newHC) {
 		var err error
-		if p.hm == nil {
+		switch {
+		case newHC == nil:
+			// the health check is disabled: stop checking, every host counts
+			// as healthy like in a service which starts without health check.
+			p.hm.Stop()
+			p.hm = nil
+			for _, h := range p.hostSet.All() {
+				p.hostSet.MarkHostHealthy(h)
+			}
+		case p.hm == nil:
 			p.hm, err = hc.NewMonitor(newHC, p.hostSet, p.Logger)
 			if err == nil {
 				p.hm.Start()
 			}
-		} else {
+		default:
 			err = p.hm.ResetHealthCheck(newHC)
 		}
 		if err != nil {
